@@ -1,6 +1,6 @@
 """C18 -- termination analysis returns only genuine ranking functions; the MS and PR methods agree.
 
-Proof part: coq/Term/{RankSpec,Encode,Sound,Check,Farkas,Complete}.v audited through coq/Properties/Properties_C18.v
+Proof part: coq/Term/{RankSpec,Encode,Sound,Check,Farkas,Complete,CompletePR2}.v audited through coq/Properties/Properties_C18.v
 (Encode.v = transcription of fill_constraint_systems_MS / fill_constraint_system_PR / ..._PR_original /
 assign_all_inequalities_approximation of /repo/src/termination.cc).
 Tie: harness/run_term.cc (which #includes termination.cc to reach the static builders) runs, on every generated
@@ -11,7 +11,7 @@ the encoding, (iv) the methods agree, (v) the MS space == exact projection of th
 import json, os
 import common, polyrun, gen_term
 
-COQ_FILES = ["Term/RankSpec.v", "Term/Encode.v", "Term/Sound.v", "Term/Check.v", "Term/Farkas.v", "Term/Complete.v"]
+COQ_FILES = ["Term/RankSpec.v", "Term/Encode.v", "Term/Sound.v", "Term/Check.v", "Term/Farkas.v", "Term/Complete.v", "Term/CompletePR2.v"]
 COQ_FILES = [f for f in COQ_FILES if os.path.exists(os.path.join(common.COQ, f))]
 
 TIE_KINDS = ("tie-", "judge-syntax")
